@@ -504,6 +504,19 @@ func runC18(c *Ctx) {
 					}
 				case 1:
 					x, y = r.AnyBits(), genPowY(r)
+					if i%16 == 9 {
+						// every entry of the power-of-ten shortcut's scale table: x = +/-10^n, y = c*10^k
+						n := r.Pick(1, -1, 2, -2, 3, -3, 5, -6, 10, -40, 600, -600)
+						k := r.Range(0, 10)
+						cc := int64(r.Range(1, 9))
+						x = cohortVariant(r, ref.Encode(r.Chance(1, 4), big.NewInt(1), n))
+						y = ref.Encode(false, big.NewInt(cc), k)
+						if r.Chance(1, 3) {
+							if alt, ok := r.CohortMember(ref.Decode(y)); ok {
+								y = alt
+							}
+						}
+					}
 				default:
 					x, y = genPowX(r), genPowY(r)
 				}
